@@ -16,7 +16,7 @@ F64_TB = [
 
 PROPS = {
     "C01": dict(
-        modules=["SpatialId.Props.C01", "SpatialId.Props.Facts.Point"],
+        modules=["SpatialId.Props.C01", "SpatialId.Props.C02Centre", "SpatialId.Props.Facts.Point"],
         families=[("newpt", 10000, 80000), ("points", 30000, 250000), ("f64", 20000, 200000)],
         trusted_base=COMMON_TB + F64_TB,
         assumptions=["multiplication/division by 2^k is modelled as exponent adjustment (IEEE 754 exactness)"],
@@ -33,7 +33,7 @@ PROPS = {
         technique="Lean 4 theorems over a bit-exact software-binary64 model + differential correspondence + exact-rational checker",
     ),
     "C02": dict(
-        modules=["SpatialId.Props.C02", "SpatialId.Props.Facts.Point"],
+        modules=["SpatialId.Props.C02", "SpatialId.Props.C02Centre", "SpatialId.Props.Facts.Point"],
         families=[("geom", 20000, 150000), ("ctrrt", 10000, 100000), ("f64", 10000, 100000)],
         trusted_base=COMMON_TB + F64_TB,
         assumptions=["row latitudes RadianToDegree(atan(sinh(pi(1-2k/2^h)))) are oracle values evaluated by the same Go expression"],
